@@ -464,7 +464,7 @@ pub mod hex {
     }
     #[verifier::external_body]
     pub fn encode<T: AsRef<[u8]>>(data: T) -> (r: String)
-        ensures r@ == hex_chars(data.aref()@), is_ascii_chars(r@),
+        ensures r@ == hex_chars(data.aref()@), is_ascii_chars(r@), r@.len() == 2 * data.aref()@.len(),
     { unimplemented!() }
 }
 
